@@ -25,6 +25,18 @@
 #include <gmssl/x509.h>
 #include <gmssl/error.h>
 
+// ctime() answers through storage shared by all threads: use the reentrant form
+static const char *time_str(const time_t *tv, char buf[32])
+{
+#ifdef WIN32
+	if (ctime_s(buf, 32, tv) != 0) return "(invalid time)\n";
+#else
+	if (!ctime_r(tv, buf)) return "(invalid time)\n";
+#endif
+	return buf;
+}
+
+
 
 const char *x509_version_name(int version)
 {
@@ -207,9 +219,9 @@ int x509_validity_print(FILE *fp, int fmt, int ind, const char *label, const uin
 	ind += 4;
 
 	if (x509_time_from_der(&tv, &d, &dlen) != 1) goto err;
-	format_print(fp, fmt, ind, "notBefore: %s", ctime(&tv));
+	format_print(fp, fmt, ind, "notBefore: %s", time_str(&tv, (char[32]){0}));
 	if (x509_time_from_der(&tv, &d, &dlen) != 1) goto err;
-	format_print(fp, fmt, ind, "notAfter: %s", ctime(&tv));
+	format_print(fp, fmt, ind, "notAfter: %s", time_str(&tv, (char[32]){0}));
 	if (asn1_length_is_zero(dlen) != 1) goto err;
 	return 1;
 err:
